@@ -1,16 +1,40 @@
 """C17 — attribute names map to the wire and back without loss."""
 import ast
 import functools
+import locale
 import os
 import re
 from importlib import import_module
 from xml.sax.saxutils import escape, quoteattr
 
 from harness import common, env
-from harness.common import Raw, cq, cq_opt
+from harness.common import Raw
+
+# Coq reads a string literal byte by byte (UTF-8 text, control characters included; only '"' is doubled), which gives
+# the same term as common.cq's `sb [bytes]` form but parses several times faster (the case files are mostly strings;
+# checked for every generated name class incl. \t \n \r \x0b \x1f \x7f and 2-, 3-, 4-byte characters).  The driver
+# writes the case files in the locale's encoding: only when that is UTF-8 are literals used.
+_UTF8_FILES = (locale.getpreferredencoding(False) or "").lower().replace("-", "").replace("_", "") == "utf8"
+
+
+def cq(v):
+    if isinstance(v, str) and _UTF8_FILES and "\x00" not in v:
+        try:
+            v.encode("utf-8")
+        except UnicodeEncodeError:
+            return common.cq(v)
+        return '"' + v.replace('"', '""') + '"'
+    if isinstance(v, (tuple, list)):
+        return ("(%s)" if isinstance(v, tuple) else "[%s]") % ("; " if isinstance(v, list) else ", ").join(cq(x) for x in v)
+    return common.cq(v)
+
+
+def cq_opt(v):
+    return "None" if v is None else "(Some %s)" % cq(v)
 
 PID = "C17"
 PARALLEL = 8
+SHARD = 340       # cases per coqc file: the quick tier (10.7 k cases) makes two full rounds of the driver's 16 workers
 IMPORTS = "From Verif Require Import C17.Model C17.Spec C17.Tables C17.Corr."
 CASE_TYPE = "C17.Corr.case"
 RUNNER = "C17.Corr.run"
@@ -37,11 +61,26 @@ RULE = ("EVERY (bundled map, local attribute) pair of the live tables: one send 
         "trip (via XML / objects alternating) for six of these twelve targets (all twelve in the thorough tier); one typed round trip or send for EVERY (bundled map, local attribute) pair and "
         "typed mixed dictionaries over random custom maps; a send observes the xsi:type / xsi:nil of every "
         "AttributeValue besides its text; exceptions are observed by type name; received values are also rendered typed "
-        "(xs:boolean / xs:integer when the text is a canonical lexical form).  non-trivial = distinct (kind, converter-set class, name format class, "
+        "(xs:boolean / xs:integer when the text is a canonical lexical form).  NAMES OUTSIDE ASCII: custom maps (both tables / "
+        "'to'-only / 'fro'-only) whose local names, wire names or both come from every class of str.lower() behaviour "
+        "(lower-case already but changed by casefold() / upper() / NFKC: sharp s, final sigma, long s, ligature, micro sign; "
+        "upper- and title-case characters of 2, 3 and 4 UTF-8 bytes; lower-case forms of another length: I with dot above, "
+        "KELVIN / ANGSTROM / OHM SIGN; no case: CJK) and TWIN maps defining two attributes whose names only a coarser "
+        "normalisation identifies (Masse / Ma-sharp-s-e, sigma / final sigma, file / fi-ligature-le, fullwidth / ASCII, "
+        "Cherokee upper / lower, NFC / NFD) x load, send and send->receive under the name as written, its lower(), and "
+        "spellings drawn from the INVERSE of the str.lower() table (every character replaced by an upper- / title-case "
+        "partner), sends under near-miss spellings (casefold(), upper(), NFKC, NFD, ASCII-only: not this attribute), "
+        "receives of all wire names in such spellings plus near-miss wire names and an attribute with only a friendly "
+        "name, allow_unknown_attributes off and on; the bundled converters with such names as unknown attributes.  "
+        "non-trivial = distinct (kind, converter-set class, name format class, "
         "attribute class, value-list class, allow, transport)")
 TRUSTED = ["abstraction of saml.Attribute / result dictionaries in harness/c17.py (_abs_attr, _abs_ava)",
            "XML rendering of Attribute elements in harness/c17.py (render_attr)",
-           "translator harness/c17.py regenerate_tables (live converters -> coq/gen/C17Tables.v)",
+           "translator harness/c17.py regenerate_tables (live converters -> coq/gen/C17Tables.v; str.lower() of the running "
+           "interpreter over all code points -> coq/gen/C17Case.v, whose entries Case.table_ok_true re-checks in the kernel)",
+           "Coq string literals holding UTF-8 text and control characters in the case files (harness/c17.py cq): read byte by "
+           "byte, same terms as common.cq's `sb [bytes]` form (compared once for the whole str.lower() table and for every "
+           "control character the generator uses)",
            "source-to-Gallina translator v2 harness/py2coq2.py + coq/theories/Base/Py2.v: re-translated from the source text on "
            "every run into coq/gen/C17Src2.v and proved equal to the model in coq/theories/C17/Source2.v (c17_source2_*): "
            "saml2.attribute_converter.AttributeConverter.adjust, AttributeConverter.from_dict, AttributeConverter.to_, "
@@ -55,9 +94,13 @@ TRUSTED = ["abstraction of saml.Attribute / result dictionaries in harness/c17.p
            "correspondence check only: list_to_local (ava[key].extend(val)), ava_from (nested tuple target of a for), "
            "to_eptid_value (nested def, type(x) is not list)"]
 ASSUMPTIONS = [
-    "attribute names, name formats and map keys consist of ASCII characters plus non-cased non-ASCII characters: "
-    "the model's lower() is the ASCII part of str.lower() (the bundled tables are checked to be pure ASCII on every run)",
-    "leading/trailing whitespace of names and values is ASCII whitespace (model's strip() is the ASCII part of str.strip())",
+    "attribute names and map keys are any text without a capital sigma (U+03A3): the model's lower() (C17/Case.v) "
+    "lower-cases ASCII letters itself and every other character by the table coq/gen/C17Case.v, which regenerate_tables "
+    "reads from str.lower() of the running interpreter on every run, complete over all code points; the translator "
+    "checks for every code point that its lower-case form does not depend on its neighbours - capital sigma is the "
+    "one exception (final sigma rule), the table holds plain sigma for it and the generator raises if a name contains it",
+    "leading/trailing whitespace of names and values is ASCII whitespace (model's strip() is the ASCII part of "
+    "str.strip(); the generator raises if a name of the non-ASCII block contains whitespace outside ASCII)",
     "local attribute values are lists of str / bool / int / float / None items or ONE str / bool / int / float object; a "
     "float enters the Coq case as the numeral Python's str() prints for it plus the flag x == 0 (computed by the harness, "
     "not by the code under test); not generated and not modelled (Model: UNMODELLED): a single None (the Attribute "
@@ -76,6 +119,7 @@ NF_SHIB = "urn:mace:shibboleth:1.0:attributeNamespace:uri"
 EPTID_OID = "urn:oid:1.3.6.1.4.1.5923.1.1.1.10"
 PERSISTENT = "urn:oasis:names:tc:SAML:2.0:nameid-format:persistent"
 GEN_FILE = os.path.join(common.COQDIR, "gen", "C17Tables.v")
+CASE_FILE = os.path.join(common.COQDIR, "gen", "C17Case.v")
 NS = ('xmlns:saml="urn:oasis:names:tc:SAML:2.0:assertion" xmlns:xs="http://www.w3.org/2001/XMLSchema" '
       'xmlns:xsi="http://www.w3.org/2001/XMLSchema-instance"')
 NAMEID_XML = {"format": "Format", "name_qualifier": "NameQualifier", "sp_name_qualifier": "SPNameQualifier",
@@ -153,8 +197,74 @@ def tables_text():
     return "\n".join(out), live
 
 
+CAPITAL_SIGMA = "Σ"
+
+
+def lower_table():
+    """str.lower() of THIS interpreter (the one that runs the code under test), complete: every code point >= 0x80
+    whose lower() is not the code point itself -> its lower().  str.lower() maps code point by code point
+    (_PyUnicode_ToLowerFull) except for U+03A3, whose image depends on its neighbours (final sigma): that one is
+    checked here to be the ONLY context-dependent character (every other character lower-cases the same alone,
+    after a cased letter and before one) and names containing it are not generated."""
+    tab = {}
+    for i in range(0x80, 0x110000):
+        if 0xD800 <= i < 0xE000:
+            continue
+        c = chr(i)
+        low = c.lower()
+        if c != CAPITAL_SIGMA and not (("a" + c).lower() == "a" + low and (c + "a").lower() == low + "a"
+                                       and ("a" + c + "a").lower() == "a" + low + "a"):
+            raise TableError("str.lower() of U+%04X depends on its neighbours" % i)
+        if low != c:
+            tab[c] = low
+    for c in map(chr, range(0x80)):
+        if c.lower() != _ascii_lower(c):
+            raise TableError("str.lower() of ASCII %r" % c)
+    return tab
+
+
+def case_table_text():
+    tab = lower_table()
+    buckets = {}
+    for k, v in tab.items():
+        kb = k.encode("utf-8")
+        buckets.setdefault(kb[0], []).append((k, v))
+    import unicodedata
+    out = ["(* GENERATED by harness/c17.py regenerate_tables from str.lower() of the interpreter that runs the code under",
+           "   test (Unicode %s): every code point >= U+0080 whose lower() differs from it, as UTF-8 bytes, grouped by"
+           % unicodedata.unidata_version,
+           "   lead byte.  Do not edit. *)",
+           "From Coq Require Import String List NArith.", "From Verif Require Import Base.Str.", "Import ListNotations.",
+           "Open Scope string_scope.", "",
+           "Definition lower_table : list (N * list (string * string)) := ["]
+    out.append(";\n".join("  (%d%%N, [%s])" % (lead, ";\n    ".join("(%s, %s)" % (cq(k), cq(v)) for k, v in items))
+                          for lead, items in sorted(buckets.items())))
+    out += ["].", ""]
+    return "\n".join(out), {"case_entries": len(tab), "lead_bytes": len(buckets), "unicode": unicodedata.unidata_version}
+
+
+def _write_gen(path, text):
+    old = None
+    if os.path.exists(path):
+        with open(path, encoding="utf-8") as f:
+            old = f.read()
+    if old != text:
+        tmp = path + ".tmp%d" % os.getpid()
+        with open(tmp, "w", encoding="utf-8") as f:
+            f.write(text)
+        os.replace(tmp, path)
+    return old != text
+
+
 def regenerate_tables(ctx):
-    """Translator: live converters -> coq/gen/C17Tables.v (written only when changed; fail closed)."""
+    """Translator: live converters -> coq/gen/C17Tables.v, str.lower() -> coq/gen/C17Case.v (written only when
+    changed; fail closed)."""
+    try:
+        ctext, cinfo = case_table_text()
+    except Exception as e:  # fail closed
+        ctext, cinfo = "(* GENERATION FAILED: %s *)\nDefinition generation_failed : False := I.\n" % (
+            str(e).replace("*)", "* )"),), {"case_entries": 0, "error": str(e)}
+    case_changed = _write_gen(CASE_FILE, ctext)
     try:
         text, live = tables_text()
     except Exception as e:  # fail closed: an unusable table file makes the proof build fail
@@ -182,11 +292,15 @@ def regenerate_tables(ctx):
     # becomes a poisoned definition, so its theorem stops checking)
     from harness import py2coq2
     src2 = py2coq2.regenerate(os.path.join(common.GEN, "C17Src2.v"), source2_items())
-    return {"obligations": n + pairs + src2["obligations"], "discharged": n + pairs + src2["discharged"],
-            "unit": "table entries + (converter, attribute) pairs + translated functions",
+    # the str.lower() table: every entry is an obligation of Case.table_ok_true (its image is a fixed point of
+    # lower() made of complete characters and has no whitespace at either end), checked by the kernel on every build
+    ce = cinfo.get("case_entries", 0)
+    return {"obligations": n + pairs + ce + src2["obligations"], "discharged": n + pairs + ce + src2["discharged"],
+            "unit": "table entries + (converter, attribute) pairs + str.lower() table entries + translated functions",
             "file": os.path.relpath(GEN_FILE, common.VERIF), "maps": len(live), "table_entries": n, "pairs": pairs,
-            "non_ascii_entries": non_ascii, "source2": src2, "untranslatable": list(src2["untranslatable"]),
-            "changed": (old != text) or bool(src2.get("changed"))}
+            "non_ascii_entries": non_ascii, "case_table": dict(cinfo, file=os.path.relpath(CASE_FILE, common.VERIF)),
+            "source2": src2, "untranslatable": list(src2["untranslatable"]),
+            "changed": (old != text) or case_changed or bool(src2.get("changed"))}
 
 
 ABSENT = '(PObj [("__class__", PStr "<absent>")])'      # a keyword argument that the call does not give
@@ -1055,6 +1169,167 @@ def generate_typed(ctx, cases):
         if not dirty:
             cases.append(mk("round", "typed-mixed", acs=acs, ava=items, nf=nf, allow=rng.random() < .5,
                             via=rng.choice(["xml", "obj"]), shape=shape, quirks=quirks))
+    return generate_unicode(ctx, cases)
+
+
+# ------------------------------------------------------------------------------ names outside ASCII (round 6)
+# Local and wire names a deployment outside the ASCII world writes into its maps.  What matters for from_dict /
+# adjust / to_ / ava_from is how str.lower() treats a character; the classes (one or more names each):
+#   lower-case already, but casefold() / upper().lower() / NFKC change it  (sharp s, final sigma, long s, ligature,
+#       micro sign, n-apostrophe, j-caron, iota with dialytika and tonos)
+#   upper- or title-case outside ASCII with a one-character lower-case form of 2, 3 and 4 bytes  (Latin-1, Greek,
+#       Cyrillic, Latin Extended, fullwidth, roman numeral, Cherokee - whose casefold() goes UP -, Deseret)
+#   upper-case with a lower-case form of another length  (I with dot above -> i + combining dot; KELVIN SIGN -> ASCII k;
+#       ANGSTROM SIGN, OHM SIGN -> a letter with another upper-case partner)
+#   no case at all  (CJK)
+U_LOCALS = ["Straße", "Größe", "Fußnote", "Maße", "κωδικός", "χρήστης", "ſtaff", "ﬁle", "µm", "ŉ-gram", "ǰ", "ΐδιος",
+            "Ärger", "ÉCOLE", "Ünvan", "ÑANDÚ", "Ωmega", "ЖУК", "Дата", "İstanbul", "IŞIK", "ışık", "ǅungla", "ǄEP",
+            "ＡＢＣ", "Ⅷ", "ᎠᎡꭲ", "𐐀𐐨𐐁", "\u212a", "\u212bngström", "\u2126", "GROẞ", "ẞ", "Όνομα χρήστης", "名前", "属性"]
+# pairs of names that str.lower() keeps apart and a coarser normalisation (casefold, upper, NFKC) identifies: a map
+# may define both, as different attributes
+U_TWINS = [("Maße", "Masse"), ("κωδικός", "κωδικόσ"), ("ſtaff", "staff"), ("ﬁle", "file"), ("µm", "μm"),
+           ("ＡＢＣ", "abc"), ("\u212bngström", "Ångström"), ("ᎠᎡ", "ꭰꭱ"), ("Ärger", "A\u0308rger"), ("ı", "i")]
+NOXML_WS = ["", "\x0b", "\x0c", "\x1c", "\x1d", "\x1e", "\x1f", " \x0b\t", "\x1f\n"]
+U_PREFIXES = ["urn:example:attr:", "urn:oid:", "http://example.org/claims/", "", "urn:Größe:", "urn:κλειδί:"]
+
+
+@functools.lru_cache(maxsize=None)
+def _inverse_lower():
+    """lower-case character -> the characters str.lower() maps to it (one character to one character only)"""
+    inv = {}
+    for c, low in lower_table().items():
+        if len(low) == 1 and c != CAPITAL_SIGMA:
+            inv.setdefault(low, []).append(c)
+    for c in "abcdefghijklmnopqrstuvwxyz":
+        inv.setdefault(c, []).insert(0, c.upper())
+    return inv
+
+
+def u_recase(rng, s, p=.6):
+    """another spelling that str.lower() maps to s.lower(): each character replaced, with probability p, by one of its
+    upper- / title-case partners (read from the inverse of the str.lower() table; never a capital sigma)"""
+    inv = _inverse_lower()
+    out = []
+    for c in s.lower():
+        alts = inv.get(c)
+        out.append(rng.choice(alts) if alts and rng.random() < p else c)
+    t = "".join(out)
+    return t if CAPITAL_SIGMA not in t and t.lower() == s.lower() else s
+
+
+def u_near_misses(s):
+    """spellings a coarser 'caseless' comparison identifies with s although str.lower() does not"""
+    import unicodedata
+    out = []
+    for t in (s.casefold(), s.upper(), s.lower().upper(), unicodedata.normalize("NFKC", s), unicodedata.normalize("NFD", s),
+              unicodedata.normalize("NFKC", s.casefold()), s.encode("ascii", "ignore").decode(), s.swapcase()):
+        if t and CAPITAL_SIGMA not in t and t.lower() != s.lower() and t not in out and t.strip() == t:
+            out.append(t)
+    return out
+
+
+def u_values(rng):
+    k = rng.randrange(6)
+    if k == 0:
+        return ["Bahnhofstraße 1", "", "  x  ", "ς"]
+    if k == 1:
+        return [rng.choice(U_LOCALS)]
+    return gen_values(rng)
+
+
+def _u_check(name):
+    if CAPITAL_SIGMA in name:
+        raise ValueError("capital sigma in a generated name: %r" % name)
+    if any(c.isspace() and not c.isascii() for c in name):
+        raise ValueError("whitespace outside ASCII in a generated name: %r" % name)
+    return name
+
+
+def generate_unicode(ctx, cases):
+    rng, deep = ctx.rng, ctx.thorough
+    n_before = len(cases)
+    fmts = [NF_URI, NF_BASIC, "urn:example:format:de", NF_UNSPEC]
+    recipes = []
+    # one name per map position: non-ASCII local / ASCII wire, ASCII local / non-ASCII wire, both, wire = local
+    names = list(U_LOCALS)
+    rng.shuffle(names)
+    per = 3
+    for i in range(0, len(names), per):
+        group = names[i:i + per]
+        pairs = []
+        for j, n in enumerate(group):
+            k = (i // per + j) % 4
+            if k == 0:
+                pairs.append([n, rng.choice(U_PREFIXES[:4]) + rand_name(rng)])
+            elif k == 1:
+                pairs.append([rand_name(rng), rng.choice(U_PREFIXES) + n])
+            elif k == 2:
+                pairs.append([n, rng.choice(U_PREFIXES) + rng.choice(U_LOCALS)])
+            else:
+                pairs.append([n, n])
+        pairs.append(["sn", "urn:oid:2.5.4.4"])
+        recipes.append(("names", pairs))
+    # twins: two attributes whose names only a coarser normalisation identifies (as local names, as wire names)
+    for a, b in U_TWINS:
+        recipes.append(("twin-local", [[a, "urn:example:attr:one"], [b, "urn:example:attr:two"]]))
+        recipes.append(("twin-wire", [["one", "urn:example:" + a], ["two", "urn:example:" + b]]))
+    if not deep:
+        recipes = recipes[:12] + rng.sample(recipes[12:], 10)
+    for ri, (rkind, pairs) in enumerate(recipes):
+        # the pairs must be a function in both directions under str.lower() (a legal symmetric map)
+        if len({k.lower() for k, _ in pairs}) != len(pairs) or len({w.lower() for _, w in pairs}) != len(pairs):
+            continue
+        for k, w in pairs:
+            _u_check(k), _u_check(w)
+        shapes = ("both", "to", "fro") if deep or rkind != "names" else (("both", "to", "fro")[ri % 3], "both")[:1 + (ri % 2)]
+        for shape in dict.fromkeys(shapes):
+            fmt = fmts[(ri + len(shape)) % len(fmts)]
+            src = {"identifier": fmt, "to": [list(p) for p in pairs] if shape in ("both", "to") else None,
+                   "fro": [[w, k] for k, w in pairs] if shape in ("both", "fro") else None}
+            acs = {"custom": [src]}
+            tag = "unicode-" + rkind
+            cases.append(mk("load", "load", src=src, shape="u-" + shape, quirks=[rkind]))
+            attrs, misses = [], []
+            for k, w in pairs:
+                spellings = list(dict.fromkeys([k, k.lower(), u_recase(rng, k), u_recase(rng, k, 1.0)]))
+                for sp in spellings if deep else spellings[:1] + rng.sample(spellings[1:], min(1, len(spellings) - 1)):
+                    _u_check(sp)
+                    cases.append(mk("send", tag + "-send", acs=acs, ava=[[sp, u_values(rng)]], nf=fmt, shape="u-" + shape,
+                                    quirks=[rkind]))
+                    cases.append(mk("round", tag + "-round", acs=acs, ava=[[sp, u_values(rng)]], nf=fmt,
+                                    allow=rng.random() < .5, via=rng.choice(["xml", "obj"]), shape="u-" + shape, quirks=[rkind]))
+                # spellings that are NOT this attribute
+                nm = u_near_misses(k)
+                for sp in nm if deep else nm[:2]:
+                    cases.append(mk("send", tag + "-miss-send", acs=acs, ava=[[sp, u_values(rng)]], nf=fmt, shape="u-" + shape,
+                                    quirks=[rkind]))
+                wsp = rng.choice([w, w.lower(), u_recase(rng, w), pad(rng, u_recase(rng, w, 1.0))])
+                attrs.append(wattr(_u_check(wsp), fmt, tvals(u_values(rng)), rng.choice([None, k])))
+                misses += [wattr(x, fmt, tvals(u_values(rng))) for x in u_near_misses(w)[:2 if not deep else 8]]
+            # everything the map defines at once, in some spelling (send, then receive)
+            cases.append(mk("round", tag + "-round-all", acs=acs, ava=[[u_recase(rng, k), u_values(rng)] for k, _ in pairs], nf=fmt,
+                            allow=rng.random() < .5, via=rng.choice(["xml", "obj"]), shape="u-" + shape, quirks=[rkind]))
+            # an attribute without Name: reported under its friendly name, lower-cased
+            noname = wattr(None, fmt, tvals(u_values(rng)), u_recase(rng, pairs[0][0], 1.0))
+            for allow in (False, True):
+                via = ("xml", "obj")[(ri + allow) % 2]
+                sent = attrs
+                if via == "obj":
+                    # element objects can carry the ASCII whitespace XML 1.0 cannot: \v \f FS GS RS US around the name
+                    sent = [dict(w, name=rng.choice(NOXML_WS) + w["name"] + rng.choice(NOXML_WS)) for w in attrs]
+                cases.append(mk("recv", tag + "-recv", acs=acs, allow=allow, via=via, attrs=sent,
+                                shape="u-" + shape, quirks=[rkind]))
+                if misses:
+                    some = attrs[:1] + misses + ([noname] if allow else [])
+                    cases.append(mk("recv", tag + "-miss-recv", acs=acs, allow=allow, via="xml", attrs=some,
+                                    shape="u-" + shape, quirks=[rkind]))
+    # the bundled converters meet such names as unknown attributes (send: unmapped; receive: dropped / wire name)
+    for n in (U_LOCALS if deep else rng.sample(U_LOCALS, 8)):
+        cases.append(mk("send", "unicode-bundled", acs="bundled", ava=[[n, u_values(rng)], ["sn", ["x"]]], nf=NF_URI))
+        cases.append(mk("recv", "unicode-bundled", acs="bundled", allow=rng.random() < .5, via="xml",
+                        attrs=[wattr(n, rng.choice([NF_URI, NF_BASIC, NF_UNSPEC]), tvals(u_values(rng))),
+                               wattr("urn:oid:2.5.4.4", NF_URI, tvals(["x"]))]))
+    ctx.unicode_cases = len(cases) - n_before
     return cases
 
 
